@@ -293,11 +293,15 @@ def _parse_shape_line(shape, line, span):
 
     # ds9 writes out text regions in this odd (undocumented) format
     if shape == 'text' and full_line.lower().startswith('# text'):
-        idx = line.find(' ')
+        # the parameters end at the closing parenthesis; they may
+        # contain blanks (e.g., after the comma)
+        idx = line.find(')')
+        if idx == -1:
+            idx = line.find(' ')
         if idx == -1:
             raise ValueError(f'unable to parse line "{line}"')
         meta_str = line[idx + 1:]
-        shape_params_str = line[:idx]
+        shape_params_str = line[:idx + 1]
 
     else:
         # split line into shape parameters and metadata
